@@ -428,7 +428,7 @@ impl World {
     /// advances the clock second by second (at most `horizon_s`).
     /// Returns the processed task keys, or the fatal reason.
     pub fn pump(&self) -> Result<Vec<String>, String> {
-        self.pump_with(2, 400)
+        self.pump_with(2, 200)
     }
 
     pub fn pump_with(
